@@ -57,6 +57,8 @@ def np_pauli(letters, k):
 
 def np_list(letters, ks):
     letters = np.asarray(letters)
+    if len(ks) == 0 and letters.ndim == 2:      # empty list on letters.shape[1] qubits
+        return pcp.PauliList(np.zeros((0, 2 * letters.shape[1]), dtype=np.int_), np.zeros(0, dtype=np.int_))
     return pcp.PauliList(np_g(letters).reshape(len(ks), -1), ints(ks))
 
 
